@@ -67,9 +67,9 @@ type hist struct {
 	dur         durable
 
 	inFlush    string // "meta" / "idx<i>" while a Flush call is in flight
+	pointsInFlush, copiesInFlush int
 	nestBudget int
 	imgDur     map[int]durable // by crash.Point.Seq
-	imgCopyP   int             // copy one image out of imgCopyP hook points
 
 	fresh   int
 	classes map[string]int
@@ -214,6 +214,7 @@ func (h *hist) flushStep() {
 func (h *hist) runFlush(what string, fn func() error) {
 	h.inFlush = what
 	h.nestBudget = rapid.IntRange(0, 2).Draw(h.t, "nestBudget")
+	h.pointsInFlush, h.copiesInFlush = 0, 0
 	if what == "meta" {
 		h.idsSinceSync = 0 // Flush starts with the sequence sync
 	}
@@ -224,6 +225,33 @@ func (h *hist) runFlush(what string, fn func() error) {
 	if err != nil {
 		h.fatalf("%s Flush failed: %v", what, err)
 	}
+}
+
+// wantImage decides which hook points are copied. The directory before operation k equals the
+// directory after operation k-1, so only the first "before" of a Flush is a candidate; table
+// writes go through a bufio writer and are numerous, so they are sampled more thinly.
+func (h *hist) wantImage(p crash.Point) bool {
+	first := h.pointsInFlush == 0
+	h.pointsInFlush++
+	if p.Before && !first {
+		return false
+	}
+	limit, pOther, pWrite := 8, 2, 12
+	if h.thorough {
+		limit, pOther, pWrite = 40, 1, 3
+	}
+	if h.copiesInFlush >= limit {
+		return false
+	}
+	prob := pOther
+	if p.FSOp == "tableWrite" {
+		prob = pWrite
+	}
+	if prob > 1 && rapid.IntRange(1, prob).Draw(h.t, "copyImage") != 1 {
+		return false
+	}
+	h.copiesInFlush++
+	return true
 }
 
 // onPoint runs at every intercepted file-system operation inside a Flush.
@@ -836,14 +864,8 @@ func runHistory(t *rapid.T, thorough bool) {
 		idxPrepSeq: make([]int, nIdx), dur: durable{Idx: make([]int, nIdx)},
 		imgDur: map[int]durable{}, classes: map[string]int{},
 	}
-	h.imgCopyP = 3
-	if thorough {
-		h.imgCopyP = 1
-	}
 	h.im = &crash.Imager{Root: h.root, OutDir: filepath.Join(dir, "img"), OnPoint: h.onPoint}
-	h.im.Want = func(p crash.Point) bool {
-		return h.imgCopyP == 1 || rapid.IntRange(1, h.imgCopyP).Draw(h.t, "copyImage") == 1
-	}
+	h.im.Want = h.wantImage
 	kv.VerifSetFSHook(h.im.Hook)
 	version.VerifSetFSHook(version.VerifFSHook(h.im.Hook))
 	table.VerifSetFSHook(table.VerifFSHook(h.im.Hook))
